@@ -3009,7 +3009,7 @@ class Entity(MutableMapping[str, str]):
                 self.map.by_class['worldspawn'].add(self)
         elif key_fold == 'targetname':
             _remove_copyset(self.map.by_target, (orig_val or '').casefold() or None, self)
-            if self in self.map.entities:
+            if self in self.map.entities or self is self.map.spawn:
                 self.map.by_target[str_val.casefold() or None].add(self)
         elif key_fold == 'nodeid' and self in self.map.entities:
             # Only entities in the map own a node ID.
